@@ -32,6 +32,10 @@ NOT_MT_SAFE = {
     "strerror", "strsignal", "strtok", "system", "ttyname", "unsetenv", "wcstombs", "wctomb", "gethostbyname",
     "gethostbyaddr", "srand", "setlocale", "tmpnam", "ecvt", "fcvt", "gcvt",
 }
+# compiler builtins that are pure functions of their operands (bit counts, byte swaps, overflow-checked arithmetic on
+# caller-supplied result slots, branch hints)
+PURE_BUILTINS = ("__builtin_clz", "__builtin_ctz", "__builtin_popcount", "__builtin_ffs", "__builtin_bswap", "__builtin_parity",
+                 "__builtin_expect", "__builtin_add_overflow", "__builtin_sub_overflow", "__builtin_mul_overflow", "__builtin_unreachable")
 ALLOW = {
     "inet_ntop": "POSIX: thread-safe, writes only into the caller's buffer",
     "rename": "POSIX: thread-safe system call on caller-supplied paths",
@@ -124,6 +128,8 @@ def check(run):
                    "%s() need not be thread-safe (POSIX.1-2017 2.9.1): it keeps hidden static state shared by all threads; called from %s" % (base, short(f["qn"])))
         elif base in ALLOW:
             run.ob("R20.2", "extern:%s" % q, True, f, line, "%s: %s (%d call sites)" % (base, ALLOW[base], len(sites)))
+        elif base.startswith(PURE_BUILTINS):
+            run.ob("R20.2", "extern:%s" % q, True, f, line, "%s: compiler builtin computing a value from its operands, no state (%d call sites)" % (base, len(sites)))
         else:
             run.ob("R20.2", "extern:%s" % q, None, f, line,
                    "external function %s is neither on the allow-list nor on the POSIX not-thread-safe list; add it with a reason" % q)
